@@ -15,6 +15,7 @@ import (
 	"verifharness/gen"
 	"verifharness/world"
 
+	"github.com/gr33nbl00d/caddy-revocation-validator/core/verifhook"
 	"github.com/gr33nbl00d/caddy-revocation-validator/crl"
 	"pgregory.net/rapid"
 )
@@ -75,7 +76,24 @@ type running struct {
 	rejectedAt time.Time
 }
 
+var updStart, updDone atomic.Int64
+
+// quiesce waits until no CRL update run of an earlier case is still in progress: refresh runs hold a process-wide
+// mutex, so a run left over from the previous case (e.g. one that races that case's Cleanup and retries closing
+// an already closed database for seconds) would delay this case's instances and be mistaken for starvation.
+func quiesce() {
+	deadline := time.Now().Add(60 * time.Second)
+	for updStart.Load() != updDone.Load() && time.Now().Before(deadline) {
+		time.Sleep(2 * time.Millisecond)
+	}
+	time.Sleep(20 * time.Millisecond)
+	for updStart.Load() != updDone.Load() && time.Now().Before(deadline) {
+		time.Sleep(2 * time.Millisecond)
+	}
+}
+
 func runCase(c Case, x *ev.Ctx) error {
+	quiesce()
 	id := seq.Add(1)
 	T := time.Duration(c.TMillis) * time.Millisecond
 	W := 12 * T
@@ -186,7 +204,7 @@ func runCase(c Case, x *ev.Ctx) error {
 					break
 				}
 				if time.Now().After(deadline) {
-					return fmt.Errorf("instance %d: CDP list not in force %v after the first handshake (background=%v)", i, W, in.Bg)
+					r.mu.Lock(); nh := len(r.hitTimes); r.mu.Unlock(); return fmt.Errorf("instance %d: CDP list not in force %v after the first handshake (background=%v; origin saw %d fetches of it; last verdict %v)", i, W, in.Bg, nh, world.Ask(ch, r.probeOld))
 				}
 				time.Sleep(T / 10)
 			}
@@ -270,6 +288,14 @@ var spec = ev.Spec[Case]{
 }
 
 func TestMain(m *testing.M) {
+	verifhook.Set(func(site string) {
+		switch site {
+		case "checker.update.start":
+			updStart.Add(1)
+		case "checker.update.done":
+			updDone.Add(1)
+		}
+	})
 	code := m.Run()
 	world.Cleanup()
 	os.Exit(code)
